@@ -327,3 +327,14 @@ func (w *W) Finish() error {
 	}
 	return os.Rename(tmp, filepath.Join(w.Dir, fmt.Sprintf("summary-%d.json", w.Shard)))
 }
+
+// FinishAndExit writes the summary and ends the child at once. It is for monitors that have recorded a
+// violation which leaves goroutines of the monitored code running away (they cannot be stopped from outside).
+func (w *W) FinishAndExit() {
+	w.End()
+	if err := w.Finish(); err != nil {
+		fmt.Println(err)
+		os.Exit(2)
+	}
+	os.Exit(0)
+}
